@@ -331,6 +331,17 @@ func (f *graphFE) apply(c *Call) (error, *invoker) {
 			return f.g.AddLambdaNode(c.Key, pooled(&f.feBase, "lam", func() *compose.Lambda { return mkLam(c.Key, fM) }), opts...), nil
 		case "pass":
 			return f.g.AddPassthroughNode(c.Key, opts...), nil
+		case "passk", "passo", "passko":
+			// a pass-through node with an input key, an output key or both (F-C20h): its keyed side is a
+			// map[string]any at once, what passes through it has a type only when a neighbour gives it one
+			ko := append([]compose.GraphAddNodeOpt(nil), opts...)
+			if c.Kind != "passo" {
+				ko = append(ko, compose.WithInputKey("ik"))
+			}
+			if c.Kind != "passk" {
+				ko = append(ko, compose.WithOutputKey("ok"))
+			}
+			return f.g.AddPassthroughNode(c.Key, ko...), nil
 		case "subok":
 			return f.g.AddGraphNode(c.Key, pooled(&f.feBase, "sub", func() compose.AnyGraph { return mkSub(true, fM) }), opts...), nil
 		default:
